@@ -73,21 +73,26 @@ def clock(ctx, P, iters):
         if ci is None or ci.name != "Simulation" or recv != "self" or how != "assign":
             ctx.violation(ob, "R1.clock-writer", q, unparse(node), "clock-written-elsewhere", "the clock may only be written by the Simulation's own loops (it must be constant during an event)", loc(node))
             continue
-        if fn.name == "__init__":
+        names_ = rules.effective_names(P, ci, fn)
+        if "__init__" in names_:
             continue
-        if not fn.name.startswith("simulate_"):
+        if not all(x.startswith("simulate_") for x in names_):
             ctx.violation(ob, "R1.clock-writer", q, unparse(node), "clock-written-elsewhere", "the clock is advanced outside the simulate_* loops", loc(node))
             continue
         v = node.value
         okk = isinstance(v, ast.Attribute) and v.attr == "next_event_date" and isinstance(v.value, ast.Name)
         if okk:
             src = v.value.id
-            defs = [x for x in ast.walk(fn) if isinstance(x, ast.Assign) and any(isinstance(t, ast.Name) and t.id == src for t in x.targets)]
-            okk = bool(defs) and all(isinstance(d.value, ast.Call) and call_name(d.value) in ("find_next_active_node", "event_and_return_nextnode") for d in defs)
+            okk = _selected_node(P, P.view("Simulation"), fn, src)
         if not okk:
             ctx.violation(ob, "R1.clock-source", q, unparse(node), "clock-not-from-next-event",
                           "the clock must be set to the next_event_date of the node selected as next active node (each event is executed exactly at its scheduled date)", loc(node))
-    ctx.floor("clock writes", n, 7)
+    ctx.floor("clock writes", n, 3)
+    for m in ("simulate_until_max_time", "simulate_until_max_customers", "simulate_until_deadlock"):
+        cls, fn = P.view("Simulation").method(m)
+        k = sum(1 for x in rules.walk(P, P.view("Simulation"), fn) if isinstance(x, ast.Assign) and any(is_self_attr(t, "current_time") for t in x.targets))
+        if k < 2:
+            ctx.unrecognised("CLK: %s advances the clock at %d site(s), expected the prologue and the loop" % (m, k))
     # event_and_return_nextnode returns the arg-min node
     sim = P.view("Simulation")
     cls, fn = sim.method("event_and_return_nextnode")
@@ -104,6 +109,41 @@ def clock(ctx, P, iters):
     writers = [x for x in rules.attr_writes(P, "active_nodes")]
     if any(f.name != "__init__" for c, f, nd, r, h in writers):
         ctx.violation(ob, "R6.scan-collection", "Simulation", "active_nodes", "rewritten", "active_nodes is modified after construction", "")
+
+
+def _selected_node(P, view, fn, name, depth=0):
+    """every definition of local `name` in fn is find_next_active_node() / event_and_return_nextnode(...), directly or as the value returned by a newly
+    extracted helper"""
+    defs = [x for x in ast.walk(fn) if isinstance(x, ast.Assign) and any(isinstance(t, ast.Name) and t.id == name for t in x.targets)]
+    if not defs:
+        return False
+    for d in defs:
+        if not (isinstance(d.value, ast.Call) and _selecting_call(P, view, d.value, depth)):
+            return False
+    return True
+
+
+def _selecting_call(P, view, call, depth=0):
+    nm = call_name(call)
+    if nm in ("find_next_active_node", "event_and_return_nextnode"):
+        return True
+    if depth > 3 or nm in rules.ANCHOR_METHODS or not (isinstance(call.func, ast.Attribute) and unparse(call.func.value) == "self"):
+        return False
+    r = view.resolve(nm)
+    if r is None:
+        return False
+    h = r[1]
+    rets = [x for x in ast.walk(h) if isinstance(x, ast.Return)]
+    if not rets:
+        return False
+    for rt in rets:
+        v = rt.value
+        if isinstance(v, ast.Call) and _selecting_call(P, view, v, depth + 1):
+            continue
+        if isinstance(v, ast.Name) and _selected_node(P, view, h, v.id, depth + 1):
+            continue
+        return False
+    return True
 
 
 def scan_rules(ctx, P):
@@ -133,7 +173,7 @@ def scan_rules(ctx, P):
                     ctx.violation(ob, "R6.argmin", q, "outer loop", "scan-collection", "the scan must run over every (node, class) entry of %s" % coll.split("[OUTER]")[0], loc(sc.loop))
                     continue
                 coll = coll.replace("OUTER", unparse(outer.target))
-            if coll is not None and unparse(sc.loop.iter) != coll:
+            if coll is not None and sc.coll != coll:
                 ctx.violation(ob, "R6.argmin", q, "for ... in %s" % unparse(sc.loop.iter)[:60], "scan-collection", "the scan must run over the whole of %s" % coll, loc(sc.loop))
             var = unparse(sc.loop.target)
             for arm, name in [(sc.arm, "reset arm")] + [(t, "tie arm") for t in sc.ties]:
@@ -225,26 +265,33 @@ def consumer_checks(ctx, ob, P):
         v = P.view(c)
         cls, fn = v.method("update_next_event_date")
         ob.ok("consumer:%s.update_next_event_date" % c)
-        okk = False
-        pair = None
-        for x in ast.walk(fn):
-            if isinstance(x, ast.Assign) and isinstance(x.targets[0], ast.Tuple) and len(x.targets[0].elts) == 2 and unparse(x.value) == "self.decide_next_event()" \
-                    and isinstance(x.targets[0].elts[0], ast.Name) and unparse(x.targets[0].elts[1]) == "self.next_event_type":
-                pair = x.targets[0].elts[0].id
-        fallback = None
-        for x in ast.walk(fn):
-            if isinstance(x, ast.Assign) and isinstance(x.targets[0], ast.Name) and isinstance(x.value, ast.Call) and unparse(x.value.func) == "self.possible_next_events.get" \
-                    and x.value.args and unparse(x.value.args[0]) == "'end_service'":
-                fallback = x.targets[0].id
-        asg = [(unparse(x.targets[0]), unparse(x.value)) for x in ast.walk(fn) if isinstance(x, ast.Assign)]
-        need = []
-        if pair:
-            need += [("self.next_event_date", pair + "[1]"), ("self.next_individual", pair + "[0]")]
-        if fallback:
-            need += [("self.next_event_date", fallback + "[1]"), ("self.next_individual", fallback + "[0]"), ("self.next_event_type", "'end_service'")]
-        if not pair or not fallback or any(n not in asg for n in need):
+        FIELDS = ("self.next_event_date", "self.next_individual", "self.next_event_type")
+        w = Walker(P, v, keep=lambda e: e.kind == "assign" and (e.d.get("local") or e.d["target"] in FIELDS), inline=rules.new_helper)
+        kinds = set()
+        bad = None
+        for st in w.paths_of(cls, fn):
+            if st.status == "raise":
+                continue
+            defs, final = {}, {}
+            for e in st.events:
+                val = scans._subst(e.d["value"], defs).replace(" ", "")
+                if e.d.get("local"):
+                    defs[e.d["target"]] = "(%s)" % val if not val.replace(".", "").replace("_", "").isalnum() else val
+                else:
+                    final[e.d["target"]] = val.replace("(", "").replace(")", "")
+            D = "self.decide_next_event"
+            got = tuple(final.get(f) for f in FIELDS)
+            if got == (D + "[0][1]", D + "[0][0]", D + "[1]"):
+                kinds.add("decided")
+            elif (got[2] == "'end_service'" and got[0] and got[1] and got[0].startswith("self.possible_next_events.get'end_service',") and got[0].endswith("[1]")
+                  and got[1] == got[0][:-3] + "[0]"):
+                kinds.add("fallback")
+            else:
+                bad = bad or (got, st)
+        if bad or kinds != {"decided", "fallback"}:
             ctx.violation(ob, "R6.argmin", "%s.update_next_event_date" % cls.name, "next_event_date / next_individual / next_event_type", "scan-result-not-stored",
-                          "the node's next event must be the (individual, date) pair and type selected by the scans", loc(fn))
+                          "the node's next event must be the (individual, date) pair and type selected by the scans%s" % (" [stored: %s]" % (bad[0],) if bad else ""), loc(fn),
+                          witness(bad[1]) if bad else None)
         cls, fn = v.method("decide_next_event")
         for sc in scans.find_scans(fn):
             var = unparse(sc.loop.target)
@@ -416,11 +463,12 @@ def records(ctx, P):
                         ("write_baulking_or_rejection_record", {"arrival_date": "self.now", "exit_date": "self.now"})):
             cls, fn = view.method(m)
             ind = fn.args.args[1].arg
-            calls = [x for x in ast.walk(fn) if isinstance(x, ast.Call) and call_name(x) == "DataRecord"]
-            if len(calls) != 1:
+            recs = rules.record_constructions(P, view, fn)
+            if len(recs) != 1:
                 ctx.unrecognised("REC: expected one DataRecord(...) in %s.%s" % (view.name, m))
                 continue
-            kw = {k.arg: unparse(k.value) for k in calls[0].keywords}
+            calls = [recs[0][0]]
+            kw = {k: unparse(v) for k, v in recs[0][1].items()}
             n += 1
             sym = {"A": kw.get("arrival_date"), "S": kw.get("service_start_date"), "E": kw.get("service_end_date"), "X": kw.get("exit_date"), "IND": ind}
             for field, form in spec.items():
